@@ -342,7 +342,9 @@ CHECKS["C11"] = {
                        "types/structure.py:UnionMetaType._write",
                        "types/structure.py:UnionMetaType._calculate_size_and_offsets"],
     "required_cells": ["pinned-witnesses", "align:True", "align:False", "shape:top", "shape:field", "shape:anon", "route:direct",
-                       "route:nested-via-proxy", "route:anonymous-struct-field", "route:array-replace"],
+                       "route:nested-via-proxy", "route:nested-deep", "route:anonymous-struct-field",
+                       "route:array-replace", "route:nested-union", "route:explicit-offset-member",
+                       "shape:explicit-offsets"],
     "assumptions": ASSUME_COMMON + ["an assignment writes the member's full encoding (its padding as zero) into the "
                                     "union's bytes"],
 }
